@@ -128,7 +128,7 @@ requests:
       - type: "var/jsonpath"
         mapping: {"tok": "$.tok", "n": "$.n", "deep": "$.d.e", "flag": "$.ok"}
       - type: "var/header"
-        mapping: {"h": "X-Tok|upper"}
+        mapping: {"h": "X-Tok|upper", "opt": "X-Opt"}
       - type: "assert/response"
         status_code: 200
 `
@@ -188,7 +188,9 @@ requests:
     uri: %q
     headers: {"X-Scn": %q, "X-Step": %q, "X-Row": "%s", "X-Val": "{{.request.%s.preprocessor.rowobj.val}}", "X-From": %q}
     body: "row=%s prev={{.request.%s.postprocessor.tok}}"
-%s`, name, uri, s.Name, name, row, init, p, row, p, nextPost())
+    preprocessor:
+      mapping: {"p1": "request.%s.postprocessor.tok", "p2": "source.vars.a", "p3": "request.%s.postprocessor.opt", "p4": "request.%s.preprocessor.rowobj.id", "p5": "source.vars.a"}
+%s`, name, uri, s.Name, name, row, init, p, row, p, init, init, init, nextPost())
 		}
 	}
 	b.WriteString("scenarios:\n")
@@ -258,7 +260,11 @@ func genCase(rng *rand.Rand, instances int) Case {
 		fm := map[int]Fail{}
 		for r := 0; r < shots; r++ {
 			if rng.Intn(3) == 0 {
-				fm[r] = Fail{Pos: rng.Intn(len(exp)), Kind: []string{"status500", "drop", "badjson", "nobody", "nofield"}[rng.Intn(5)]}
+				fm[r] = Fail{Pos: rng.Intn(len(exp)), Kind: []string{"status500", "drop", "badjson", "nobody", "nofield", "noopt"}[rng.Intn(6)]}
+				if fm[r].Kind == "noopt" {
+					// the first step's response lacks a header that the later steps' preprocessors read
+					fm[r] = Fail{Pos: 0, Kind: "noopt"}
+				}
 			}
 		}
 		c.Fails[s.Name] = fm
@@ -319,6 +325,9 @@ func (w *world) respond(rq *vkit.ReqRec, rw http.ResponseWriter, r *http.Request
 	w.mu.Unlock()
 	rw.Header().Set("X-Tok", x.Tok)
 	rw.Header().Set("Content-Type", "application/json")
+	if kind != "noopt" {
+		rw.Header().Set("X-Opt", "o")
+	}
 	switch kind {
 	case "status500":
 		rw.WriteHeader(500)
@@ -444,10 +453,20 @@ func runCase(res *vkit.Result, c Case, idx int) {
 					}
 				}
 			}
+			// "noopt": the first step succeeds, but its response lacks the header that one of the five
+			// entries of every later step's preprocessor mapping reads: the second step of the shot
+			// fails before anything is sent
+			notSentKind := "template"
+			if failKind == "noopt" {
+				f = -1
+				if len(exp) > 1 && (brokenAt < 0 || 1 <= brokenAt) {
+					brokenAt, notSentKind = 1, "preprocessor"
+				}
+			}
 			arrived, failedStep := len(exp), -1
 			switch {
 			case brokenAt >= 0 && (f < 0 || brokenAt <= f):
-				arrived, failedStep, failKind = brokenAt, brokenAt, "template"
+				arrived, failedStep, failKind = brokenAt, brokenAt, notSentKind
 			case f >= 0 && f < len(exp):
 				arrived, failedStep = f+1, f
 			default:
